@@ -206,30 +206,70 @@ def diag(prog: Program, res: Result) -> None:
         raise AnalysisError("DIAG stride idiom fixtures not recognised")
     for short in ("sptensor.sptendiag", "tensor.tendiag"):
         fi = prog.func(short)
-        tile = [c for c in ast.walk(fi.node) if isinstance(c, ast.Call) and (dotted(c.func) or "").split(".")[-1] == "tile"]
+        fn = fi.node
+        # names: element count N (= len(<elements>)), constructed shape S (the shape handed to the constructor of the result)
+        count_names = {n.targets[0].id for n in ast.walk(fn) if isinstance(n, ast.Assign) and len(n.targets) == 1 and isinstance(n.targets[0], ast.Name)
+                       and isinstance(n.value, ast.Call) and (dotted(n.value.func) or "") == "len"}
+        shape_name = None
+        for c in ast.walk(fn):
+            if isinstance(c, ast.Call):
+                base = (dotted(c.func) or "").split(".")[-1]
+                if base in ("tenzeros", "zeros") and c.args and isinstance(c.args[0], ast.Name):
+                    shape_name = c.args[0].id
+                if base in ("from_aggregator", "sptensor") and len(c.args) >= 3 and isinstance(c.args[2], ast.Name):
+                    shape_name = c.args[2].id
+        tile = [c for c in ast.walk(fn) if isinstance(c, ast.Call) and (dotted(c.func) or "").split(".")[-1] == "tile"]
         desc = "one diagonal subscript column per mode of the constructed shape"
         if not tile:
-            v = _stride_idiom(fi.node)
+            v = _stride_idiom(fn)
             if v is None:
                 res.undecided("DIAG", short, desc, prog.loc(fi))
             elif v[0]:
                 res.ok("DIAG", short, desc, prog.loc(fi, v[2]), "linear indices k * sum(F-order strides)")
             else:
                 res.bad("DIAG", short, desc, prog.loc(fi, v[2]), v[1])
+        elif shape_name is None or not count_names:
+            res.undecided("DIAG", short, desc, prog.loc(fi, tile[0]), "element count / constructed shape not identified")
         else:
-            reps = ast.unparse(tile[0].args[1]) if len(tile[0].args) > 1 else ""
-            src = ast.unparse(tile[0].args[0]) if tile[0].args else ""
-            if "len(constructed_shape)" in reps and "arange(0, N)" in src.replace("np.", ""):
-                res.ok("DIAG", short, desc, prog.loc(fi, tile[0]), f"tile({src}, {reps})")
+            t = tile[0]
+            src = t.args[0] if t.args else None
+            reps = t.args[1] if len(t.args) > 1 else None
+            # source: arange(N) (as a column or transposed row)
+            ar = [c for c in ast.walk(src) if isinstance(c, ast.Call) and (dotted(c.func) or "").split(".")[-1] == "arange"] if src is not None else []
+            ar_ok = bool(ar) and isinstance(ar[0].args[-1], ast.Name) and ar[0].args[-1].id in count_names \
+                and (len(ar[0].args) == 1 or const(ar[0].args[0]) == 0)
+            # repetitions: len(S) with the S of the constructor
+            lens = [c for c in ast.walk(reps) if isinstance(c, ast.Call) and (dotted(c.func) or "") == "len" and c.args
+                    and isinstance(c.args[0], ast.Name)] if reps is not None else []
+            rep_ok = bool(lens) and lens[0].args[0].id == shape_name
+            if ar_ok and rep_ok:
+                res.ok("DIAG", short, desc, prog.loc(fi, t), f"tile({ast.unparse(src)}, {ast.unparse(reps)})")
+            elif not rep_ok:
+                res.bad("DIAG", short, desc, prog.loc(fi, t),
+                        f"tile(.., {ast.unparse(reps) if reps is not None else ''}): the number of subscript columns is not the order of the constructed "
+                        f"tensor `len({shape_name})`")
             else:
-                res.bad("DIAG", short, desc, prog.loc(fi, tile[0]), f"tile({src}, {reps}): the number of columns is not the order of the constructed tensor")
+                res.bad("DIAG", short, desc, prog.loc(fi, t), f"the tiled column is `{ast.unparse(src)}`, not 0..N-1 for the N diagonal elements")
         desc = "constructed extent per mode is max(number of elements, requested extent); cubical of order N without a shape"
-        gens = [n for n in ast.walk(fi.node) if isinstance(n, ast.Assign) and isinstance(n.targets[0], ast.Name) and n.targets[0].id == "constructed_shape"]
-        txts = [ast.unparse(g.value).replace(" ", "") for g in gens]
-        if any("max(N,dim)" in t or "max(dim,N)" in t for t in txts) and any(t in ("(N,)*N", "N*(N,)") for t in txts):
+        gens = [n for n in ast.walk(fn) if isinstance(n, ast.Assign) and len(n.targets) == 1 and isinstance(n.targets[0], ast.Name)
+                and n.targets[0].id == shape_name] if shape_name else []
+        has_max = has_cube = False
+        for g in gens:
+            v = g.value
+            for c in ast.walk(v):
+                if isinstance(c, ast.Call) and (dotted(c.func) or "") == "max" and len(c.args) == 2:
+                    names = {a.id for a in c.args if isinstance(a, ast.Name)}
+                    if names & count_names and len(names) == 2:
+                        has_max = True
+            if isinstance(v, ast.BinOp) and isinstance(v.op, ast.Mult):
+                tup, k = (v.left, v.right) if isinstance(v.left, ast.Tuple) else (v.right, v.left)
+                if isinstance(tup, ast.Tuple) and len(tup.elts) == 1 and isinstance(tup.elts[0], ast.Name) and tup.elts[0].id in count_names \
+                        and isinstance(k, ast.Name) and k.id in count_names:
+                    has_cube = True
+        if has_max and has_cube:
             res.ok("DIAG", short, desc, prog.loc(fi, gens[0]))
         elif gens:
-            res.bad("DIAG", short, desc, prog.loc(fi, gens[0]), f"constructed shape computed as {txts}")
+            res.bad("DIAG", short, desc, prog.loc(fi, gens[0]), f"constructed shape computed as {[ast.unparse(g.value) for g in gens]}")
         else:
             res.undecided("DIAG", short, desc, prog.loc(fi))
 
